@@ -192,10 +192,16 @@ func (s *KeyStore) ListKeyRings() (rings []string, err error) {
 		s.log.WithError(err).Debug("failed to list key rings")
 		return nil, err
 	}
-	for i := range rings {
-		rings[i] = strings.TrimSuffix(rings[i], keyringSuffix)
+	keyRings := rings[:0]
+	for _, path := range rings {
+		// Skip everything that is not a key ring, such as temporary
+		// "*.keyring.new" files left behind by interrupted updates.
+		if !strings.HasSuffix(path, keyringSuffix) {
+			continue
+		}
+		keyRings = append(keyRings, strings.TrimSuffix(path, keyringSuffix))
 	}
-	return rings, nil
+	return keyRings, nil
 }
 
 // DescribeKeyRing describes key ring by its purpose path.
